@@ -30,7 +30,7 @@ except Exception:      # noqa: BLE001 - optional part of the zoo
     multidoing = None
 
 PID = "C28"
-RULE = ("cases: (class from a zoo of 17 data classes over RawDom/RegDom/TymeDom/IceRawDom/IceRegDom/IceTymeDom and the "
+RULE = ("cases: (class from a zoo of 20 data classes, three of them subclasses that add nested data-object fields to a concrete parent which is deserialised first over RawDom/RegDom/TymeDom/IceRawDom/IceRegDom/IceTymeDom and the "
         "tree's Bag, IceBag, AckDom/AddrDom/MemoDom/BokDom, field values); values (also in fields whose declared default is not None, and None in typed fields) drawn from None, bools, ints in "
         "[-2**63, 2**64-1], finite floats, surrogate-free unicode strings, lists and string-keyed dicts of those, nested "
         "data objects in fields typed by their class; non-trivial = the object holds a nested data object or a nested "
@@ -144,8 +144,36 @@ class ZIceDefaults(IceRegDom):
     on: Any = False
 
 
+# subclasses of concrete data classes that ADD fields, among them nested data objects (a per-class cache or registry
+# lookup that is inherited from the parent would miss exactly these)
+@namify
+@registerify
+@dataclass
+class ZSubFlat(ZFlat):
+    spot: ZInner = field(default_factory=ZInner)
+    extra: Any = None
+
+    def __hash__(self):
+        return hash((self.__class__.__name__,))
+
+
+@dataclass
+class ZSubInner(ZInner):
+    deeper: ZInner = field(default_factory=ZInner)
+    note: str = ""
+
+
+@registerify
+@dataclass(frozen=True)
+class ZSubIceReg(ZIceReg):
+    more: ZIceInner = field(default_factory=ZIceInner)
+    z: Any = None
+
+
+PARENT = {"ZSubFlat": "ZFlat", "ZSubInner": "ZInner", "ZSubIceReg": "ZIceReg"}
+
 ZOO = {c.__name__: c for c in (ZInner, ZIceInner, ZMid, ZOuter, ZIceReg, ZIceTyme, ZFlat, ZDefaults, ZIceDefaults,
-                               bagging.Bag, bagging.IceBag)}
+                               ZSubFlat, ZSubInner, ZSubIceReg, bagging.Bag, bagging.IceBag)}
 if multidoing is not None:
     # CrewDom is left out: its default boss field is a namedtuple, outside the common domain of the codecs
     for _n in ("AddrDom", "AckDom", "MemoDom", "BokDom", "EndDom", "HandDom"):
@@ -255,6 +283,10 @@ def run_case(case):
     spec = case["obj"]
     cls = ZOO[spec["cls"]]
     obj = build(spec)
+    if spec["cls"] in PARENT and case.get("parent_first", True):
+        pcls = ZOO[PARENT[spec["cls"]]]
+        pcls._fromjson(pcls()._asjson())
+        r.labels.append("subclass-after-parent")
     for name, ser, de in CODECS:
         try:
             raw = getattr(obj, ser)()
@@ -342,7 +374,8 @@ def spec_strategy(name):
 def _strategy():
     names = sorted(ZOO)
     # weight the classes with nested data objects
-    weighted = names + ["ZOuter", "ZOuter", "ZMid", "ZIceTyme", "ZIceReg", "ZDefaults", "ZDefaults", "ZIceDefaults"] + (["AckDom"] if "AckDom" in ZOO else [])
+    weighted = names + ["ZOuter", "ZOuter", "ZMid", "ZIceTyme", "ZIceReg", "ZDefaults", "ZDefaults", "ZIceDefaults", "ZSubFlat", "ZSubFlat",
+                        "ZSubInner", "ZSubIceReg"] + (["AckDom"] if "AckDom" in ZOO else [])
     return st.sampled_from(weighted).flatmap(
         lambda n: st.fixed_dictionaries({"obj": spec_strategy(n), "json_as_str": st.booleans()}))
 
